@@ -284,8 +284,12 @@ def run(tier, seed):
         broken.append('correspondence ops num/hexc/hash diverge on %d cases; first %r impl=%s model=%s' % (
             res['n_mismatch'], c, lib.dec(e) if e not in ('~',) and ',' not in e else e,
             lib.dec(g) if g not in ('~',) and ',' not in g else g))
+    # how much of the code the model transcribes do the correspondence inputs execute (a measurement, not a verdict)
+    _sample = cases[::max(1, len(cases) // 2000)]
+    coverage_lines = lib.modelled_code_coverage([('css_parser.serialize', 'CSSSerializer.do_css_Value'), ('css_parser.serialize', 'CSSSerializer._strip_zeros'), ('css_parser.serialize', 'CSSSerializer._hash'), ('css_parser.css.value', 'DimensionValue._setCssText')], [lambda c=c: py_of(c) for c in _sample], limit=2005)
     findings.probe_known(lambda f: bool(oracle(tuple(f['case']))))
     coverage = {
+        'modelled_code_line_coverage': coverage_lines,
         'evaluations': res['n'] + res2['n'],
         'distinct_nontrivial': len(set(cases)) + len(extra),
         'rule': 'numbers: sign x integer part (0-3 digits incl. leading zeros) x fraction (0-7 digits incl. the '
